@@ -4,6 +4,7 @@
 package main
 
 import (
+	"bytes"
 	"encoding/hex"
 	"sort"
 	"time"
@@ -192,6 +193,13 @@ func (c *caseT) request() {
 	if errS == "" {
 		id := oracletypes.RequestID(k.GetRequestCount(c.ctx))
 		rq := k.MustGetRequest(c.ctx, id)
+		if r.Chance(1, 6) {
+			// the request came over IBC on a channel that can no longer carry the response (closed channel, expired client):
+			// the result is stored all the same, only the packet is not sent
+			rq.IBCChannel = &oracletypes.IBCChannel{PortId: "oracle", ChannelId: "channel-7"}
+			k.SetRequest(c.ctx, id, rq)
+			c.tr.Tag("ibc-request-without-usable-channel")
+		}
 		vals := []int{}
 		for _, v := range rq.RequestedValidators {
 			vals = append(vals, valIdx(v))
@@ -293,6 +301,10 @@ func (c *caseT) report() {
 	var raws []oracletypes.RawReport
 	for i, e := range eids {
 		data := []byte("answer")
+		if n := r.PickInt(6, 6, 40, 260, 300); n != 6 {
+			// longer answers, also longer than the calldata limit (256) and within the report-data limit (512)
+			data = bytes.Repeat([]byte{byte('a' + e%26)}, n)
+		}
 		if oversize && i == 0 {
 			data = make([]byte, int(k.GetParams(c.ctx).MaxReportDataSize)+1)
 		}
@@ -311,13 +323,55 @@ func (c *caseT) report() {
 	c.tr.Op(fx.M{"op": "report", "val": val, "rid": uint64(rid), "eids": eids, "oversize": oversize && len(raws) > 0, "out": out})
 }
 
+// script4Outcome: oracle script 4 appends, for every external id and every asked validator in order, that validator's
+// answer (whatever its exit code) and returns the OBI string of the concatenation — so the result of a request on
+// it is known from the reports present at resolution
+func (c *caseT) script4Outcome(rid oracletypes.RequestID) (string, bool) {
+	k := c.app.OracleKeeper
+	rq, err := k.GetRequest(c.ctx, rid)
+	if err != nil || rq.OracleScriptID != 4 || rq.ExecuteGas != bandtesting.TestDefaultExecuteGas {
+		return "", false
+	}
+	var cat []byte
+	for _, raw := range rq.RawRequests {
+		for _, vs := range rq.RequestedValidators {
+			var rep *oracletypes.Report
+			for _, x := range k.GetReports(c.ctx, rid) {
+				if x.Validator == vs {
+					y := x
+					rep = &y
+				}
+			}
+			if rep == nil {
+				continue
+			}
+			for _, rr := range rep.RawReports {
+				if rr.ExternalID == raw.ExternalID {
+					cat = append(cat, rr.Data...)
+				}
+			}
+		}
+	}
+	if len(cat) > 440 {
+		return "", false // close to the span limit: not claimed
+	}
+	out := append([]byte{byte(len(cat) >> 24), byte(len(cat) >> 16), byte(len(cat) >> 8), byte(len(cat))}, cat...)
+	return hex.EncodeToString(out), true
+}
+
 func (c *caseT) endBlock() {
+	expects := [][]any{}
+	for _, rid := range c.app.OracleKeeper.GetPendingResolveList(c.ctx) {
+		if res, ok := c.script4Outcome(oracletypes.RequestID(rid)); ok {
+			expects = append(expects, []any{uint64(rid), int(oracletypes.RESOLVE_STATUS_SUCCESS), res})
+		}
+	}
 	errS := fx.Try(func() error { return oracle.EndBlocker(c.ctx, c.app.OracleKeeper) })
 	out := c.dump()
 	if errS != "" {
 		out = fx.M{"panic": true, "err": errS}
 	}
-	c.tr.Op(fx.M{"op": "endBlock", "height": c.height, "now": fx.I(c.now), "exp": c.exp, "out": out})
+	c.tr.Op(fx.M{"op": "endBlock", "height": c.height, "now": fx.I(c.now), "exp": c.exp, "expects": expects, "out": out})
 	// next block
 	c.height++
 	c.now += int64(c.r.PickInt(1, 1_000_000_000, 1_000_000_000, 2_500_000_000, 6_000_000_000))
@@ -329,6 +383,21 @@ func (c *caseT) endBlock() {
 		fx.Must(c.app.OracleKeeper.SetParams(c.ctx, p))
 		c.tr.Tag("exp-changed")
 	}
+}
+
+// pendingQuery: the gRPC query yoda asks at start-up ("which open requests still wait for MY report?") for one validator
+func (c *caseT) pendingQuery() {
+	i := c.r.Intn(len(bandtesting.Validators))
+	q := oraclekeeper.Querier{Keeper: c.app.OracleKeeper}
+	ids := []uint64{}
+	e := fx.Try(func() error {
+		res, err := q.PendingRequests(c.ctx, &oracletypes.QueryPendingRequestsRequest{ValidatorAddress: bandtesting.Validators[i].ValAddress.String()})
+		if err == nil {
+			ids = append(ids, res.RequestIDs...)
+		}
+		return err
+	})
+	c.tr.Op(fx.M{"op": "pendingQuery", "val": i, "out": fx.M{"err": e, "ids": ids}})
 }
 
 func runCase(app *fx.App, tr *fx.Trace, r *fx.Rng) {
@@ -362,6 +431,9 @@ func runCase(app *fx.App, tr *fx.Trace, r *fx.Rng) {
 			c.endBlock()
 		default:
 			c.activate(r.Intn(len(bandtesting.Validators)))
+		}
+		if r.Chance(1, 8) {
+			c.pendingQuery()
 		}
 	}
 	for k := 0; k < int(c.exp)+1 && r.Chance(3, 4); k++ {
